@@ -105,46 +105,48 @@ TOKEN_IMPLS = ["<pasfmt_core::lang::Token as pasfmt_core::lang::TokenData>::get_
                "<pasfmt_core::lang::RawToken as pasfmt_core::lang::TokenData>::get_content", "<pasfmt_core::lang::RawToken as pasfmt_core::lang::TokenData>::get_leading_whitespace"]
 
 
+OLF_SEARCH = "pasfmt_core::rules::optimising_line_formatter::InternalOptimisingLineFormatter::find_optimal_solution"
+# how often the search (find_optimal_solution, its closures and private helpers called only from it) constructs each give-up value
 GIVE_UP_SITES = {
-    # (function, variant, innermost guard) -> why the wrapper may leave the line as it was written there
-    ("find_optimal_solution", "NoSolutionFound", "get_formatting_invariant"): "the required start of the line contradicts a hard rule for its first token (e.g. a line break is required where none may be)",
-    ("find_optimal_solution", "IterationLimitReached", "Gt(iteration_count,iteration_max)"): "documented search budget (iteration_max)",
-    ("find_optimal_solution", "NoSolutionFound", "pop:None"): "the search space is exhausted",
+    "NoSolutionFound": (2, "the required start of the line contradicts a hard rule for its first token; the search space is exhausted"),
+    "IterationLimitReached": (1, "documented search budget (iteration_max)"),
 }
 
 
 def wrapper_gives_up_only_at_reviewed_sites(prog, rep, R):
     """C06.i — a line the wrapper gives up on keeps the line breaks it had in the input (only its line-start blanks are removed), so
-    every way of giving up is a way for the input's layout to reach the output.  The sites that construct a FormattingSolutionError
-    form a closed, reviewed inventory keyed by (function, variant, innermost guard); a new site (a depth guard, a size guard, a
-    time budget ..) has to be reviewed here: it makes the output of the lines it hits depend on how they were wrapped in the input."""
-    from panic import dominating_conditions
-    found = {}
+    every way of giving up is a way for the input's layout to reach the output.  The places where a FormattingSolutionError value
+    is constructed (as an aggregate or as a constant operand, e.g. the argument of `ok_or`) form a closed, reviewed inventory: they
+    lie in the search function (its closures, private helpers called only from it) and there are as many per variant as reviewed.
+    One more site (a depth guard, a size guard, a time budget ..) has to be reviewed here: it makes the output of the lines it hits
+    depend on how they were wrapped in the input."""
+    sites = {}
     for b in prog.bodies.values():
-        if not b.crate.startswith("pasfmt_core"):
+        if not b.crate.startswith("pasfmt_core") or not nondebug(b.npath):
             continue
-        for bb, i, s in b.stmts():
-            if s["k"] == "assign" and s["rv"]["k"] == "aggregate" and s["rv"].get("agg") == "adt" and norm(s["rv"].get("adt", "")).endswith("optimising_line_formatter::FormattingSolutionError"):
-                guard = "?"
-                cmps = [c for c in dominating_conditions(b, bb) if c[0] == "cmp"]
-                facts = [f for f in dominating_variant_facts(prog, b, bb)]
-                if cmps and cmps[-1][5] in b.dom.get(bb, ()) and (not facts or True):
-                    c = cmps[-1]
-                    guard = "%s(%s,%s)" % (c[1], canon(b, c[2]).split(".")[-1].replace("var:", ""), canon(b, c[3]).split(".")[-1].replace("var:", ""))
-                    if c[4] is False:
-                        guard = "!" + guard
-                if guard == "?" or not cmps:
-                    if facts:
-                        f = facts[-1]
-                        guard = "get_formatting_invariant" if "get_formatting_invariant(" in f[0] else ("pop:%s" % f[2][0] if f[0].startswith("pop(") else "%s:%s" % (f[0][:40], ",".join(f[2])))
-                # the comparison counts only if it is nearer than the last variant fact
-                key = (b.npath.split("::")[-1] if "{closure" not in b.npath else short(b.npath), s["rv"]["variant"], guard)
-                found.setdefault(key, []).append("%s:%d" % (b.file, abs(s.get("line", 0))))
-    for key, wh in sorted(found.items()):
-        rep.check(key in GIVE_UP_SITES, R, "give-up-site:%s|%s|%s" % key,
-                  "the wrapper gives up on a line (%s) in %s under `%s`, which is not a reviewed give-up site: the line then keeps the line breaks of the input, so its output depends on how it "
-                  "was wrapped there" % (key[1], key[0], key[2]), where=wh[0], instance={"function": key[0], "error": key[1], "guard": key[2], "reason": GIVE_UP_SITES.get(key, "UNREVIEWED")})
-    rep.floor(R, "sites that construct a FormattingSolutionError", sum(len(v) for v in found.values()), 3)
+        for adt, v in enum_variants_mentioned(b):
+            if adt.endswith("optimising_line_formatter::FormattingSolutionError"):
+                sites.setdefault(b.npath, []).append(v)
+        for bb, i, st in b.stmts():
+            if st["k"] == "assign" and st["rv"]["k"] == "aggregate" and st["rv"].get("agg") == "adt" and st["rv"]["ops"] \
+                    and norm(st["rv"].get("adt", "")).endswith("optimising_line_formatter::FormattingSolutionError"):
+                sites.setdefault(b.npath, []).append(st["rv"]["variant"])
+    acc = helper_closure(prog, sorted(sites), [OLF_SEARCH])
+    counts = {}
+    for k, vs in sorted(sites.items()):
+        inside = k == OLF_SEARCH or k.startswith(OLF_SEARCH + "::") or k in acc
+        rep.check(inside, R, "give-up-site-outside-the-search:%s" % short(k),
+                  "%s constructs a FormattingSolutionError (%s) outside the search function: a new way of giving up on a line, which then keeps the line breaks of the input" % (short(k), sorted(set(vs))),
+                  where="%s:%d" % (prog.bodies[k].file, prog.bodies[k].line), instance={"body": short(k), "variants": sorted(set(vs))})
+        for v in vs:
+            counts[v] = counts.get(v, 0) + 1
+    for v, n in sorted(counts.items()):
+        want = GIVE_UP_SITES.get(v, (0, "UNREVIEWED"))
+        rep.check(n <= want[0], R, "give-up-sites:%s" % v,
+                  "the wrapper constructs %s at %d sites, %d are reviewed (%s): a new give-up site makes the output of the lines it hits depend on how they were wrapped in the input "
+                  "(a line without a solution keeps its line breaks)" % (v, n, want[0], want[1]), where="%s:%d" % (prog.body(OLF_SEARCH).file, prog.body(OLF_SEARCH).line) if prog.body(OLF_SEARCH) else None,
+                  instance={"variant": v, "sites": n, "reviewed": want[0], "reason": want[1]})
+    rep.floor(R, "sites that construct a FormattingSolutionError", sum(counts.values()), 2)
 
 
 def check_c06(prog, rep, tier, cfg):
